@@ -123,6 +123,9 @@ func (g *gen) errorInOut(name string, typs []types.Type) (inTyp types.Type, outs
 	if params.Len() != 1 {
 		return nil, nil, fmt.Errorf("%s, the first argument is a function, but wanted a function with one argument", name)
 	}
+	if sig.Variadic() {
+		return nil, nil, fmt.Errorf("%s, the function argument is variadic, which is not supported", name)
+	}
 	inTyp = params.At(0).Type()
 	if !types.Identical(inTyp, elemTyp) {
 		return nil, nil, fmt.Errorf("%s the function input type is not of type rune != %s",
@@ -148,6 +151,9 @@ func (g *gen) stringOut(name string, typs []types.Type) (outTyp types.Type, err 
 	params := sig.Params()
 	if params.Len() != 1 {
 		return nil, fmt.Errorf("%s, the first argument is a function, but wanted a function with one argument", name)
+	}
+	if sig.Variadic() {
+		return nil, fmt.Errorf("%s, the function argument is variadic, which is not supported", name)
 	}
 	elemTyp := types.Typ[types.Rune]
 	inTyp := params.At(0).Type()
@@ -176,6 +182,9 @@ func (g *gen) chanInOut(name string, typs []types.Type) (inTyp, outTyp types.Typ
 	if params.Len() != 1 {
 		return nil, nil, fmt.Errorf("%s, the first argument is a function, but wanted a function with one argument", name)
 	}
+	if sig.Variadic() {
+		return nil, nil, fmt.Errorf("%s, the function argument is variadic, which is not supported", name)
+	}
 	elemTyp := chanType.Elem()
 	inTyp = params.At(0).Type()
 	if !types.Identical(inTyp, elemTyp) {
@@ -202,6 +211,9 @@ func (g *gen) sliceInOut(name string, typs []types.Type) (inTyp types.Type, outT
 	params := sig.Params()
 	if params.Len() != 1 {
 		return nil, nil, fmt.Errorf("%s, the first argument is a function, but wanted a function with one argument", name)
+	}
+	if sig.Variadic() {
+		return nil, nil, fmt.Errorf("%s, the function argument is variadic, which is not supported", name)
 	}
 	elemTyp := sliceTyp.Elem()
 	inTyp = params.At(0).Type()
